@@ -44,10 +44,13 @@ type vgStep struct {
 	FailDial int    `json:"faildial"` // k-th dial of this operation fails (0 = none)
 	E        string `json:"e"`
 	Name     string `json:"name"` // rpc: MultiEndpoint name in the context ("" = none)
+	N        int    `json:"n"`    // tick: virtual milliseconds
 }
 
 type vgScript struct {
 	Id    string   `json:"id"`
+	R     int      `json:"r"` // recovery timeout of every MultiEndpoint in virtual ms (0 = none)
+	D     int      `json:"d"` // switching delay in virtual ms (0 = none); r or d > 0: virtual clock, advanced by "tick" only
 	Steps []vgStep `json:"steps"`
 }
 
@@ -75,6 +78,9 @@ type vgEvent struct {
 	FailDial int       `json:"faildial"`
 	E        string    `json:"e"`
 	Name     string    `json:"name"`
+	N        int       `json:"n"`
+	R        int       `json:"r"`
+	D        int       `json:"d"`
 	Res      string    `json:"res"`     // OK | ERR | PANIC | HANG | SKIPPED
 	Srv      string    `json:"srv"`     // rpc: endpoint whose server answered
 	Dials    []vgDial  `json:"dials"`   // dials made by this operation, in order
@@ -137,7 +143,77 @@ func (s *vgServer) dial(ctx context.Context) (net.Conn, error) {
 	return lis.DialContext(ctx)
 }
 
+// virtual clock of the MultiEndpoints (timed scripts): timers fire only when a "tick" input advances it
+type vgTimer struct {
+	c       *vgClock
+	due     int64
+	f       func()
+	stopped bool
+	fired   bool
+}
+
+func (t *vgTimer) Stop() bool {
+	t.c.mu.Lock()
+	defer t.c.mu.Unlock()
+	was := !t.stopped && !t.fired
+	t.stopped = true
+	return was
+}
+
+type vgClock struct {
+	mu     sync.Mutex
+	now    int64
+	timers []*vgTimer
+}
+
+func (c *vgClock) Now() time.Time {
+	c.mu.Lock()
+	defer c.mu.Unlock()
+	return verifBase.Add(time.Duration(c.now) * time.Millisecond)
+}
+
+func (c *vgClock) After(d time.Duration, f func()) multiendpoint.VerifTimer {
+	c.mu.Lock()
+	defer c.mu.Unlock()
+	t := &vgTimer{c: c, due: c.now + int64(d/time.Millisecond), f: f}
+	c.timers = append(c.timers, t)
+	return t
+}
+
+// advance moves the clock and runs every timer that becomes due, earliest first (creation order among equals),
+// including timers created by the callbacks themselves.
+func (c *vgClock) advance(n int64) {
+	c.mu.Lock()
+	target := c.now + n
+	c.mu.Unlock()
+	for {
+		c.mu.Lock()
+		var next *vgTimer
+		for _, t := range c.timers {
+			if t.stopped || t.fired || t.due > target {
+				continue
+			}
+			if next == nil || t.due < next.due {
+				next = t
+			}
+		}
+		if next == nil {
+			c.now = target
+			c.mu.Unlock()
+			return
+		}
+		if next.due > c.now {
+			c.now = next.due
+		}
+		next.fired = true
+		c.mu.Unlock()
+		next.f()
+	}
+}
+
 type vgHarness struct {
+	clock    *vgClock
+	r, d     int
 	servers  map[string]*vgServer
 	gme      *GCPMultiEndpoint
 	mu       sync.Mutex
@@ -206,7 +282,8 @@ func (h *vgHarness) opts(st vgStep) *GCPMultiEndpointOptions {
 		DialFunc:       h.dialFunc,
 	}
 	for _, m := range st.Mes {
-		o.MultiEndpoints[m.Name] = &multiendpoint.MultiEndpointOptions{Endpoints: append([]string{}, m.Eps...)}
+		o.MultiEndpoints[m.Name] = &multiendpoint.MultiEndpointOptions{Endpoints: append([]string{}, m.Eps...),
+			RecoveryTimeout: time.Duration(h.r) * time.Millisecond, SwitchingDelay: time.Duration(h.d) * time.Millisecond}
 	}
 	return o
 }
@@ -333,7 +410,7 @@ func (h *vgHarness) goroutinesAboveBaseline() int {
 }
 
 func (h *vgHarness) exec(i int, st vgStep) vgEvent {
-	ev := vgEvent{I: i, Op: st.Op, Mes: st.Mes, Def: st.Def, FailDial: st.FailDial, E: st.E, Name: st.Name, Res: "OK"}
+	ev := vgEvent{I: i, Op: st.Op, Mes: st.Mes, Def: st.Def, FailDial: st.FailDial, E: st.E, Name: st.Name, N: st.N, R: h.r, D: h.d, Res: "OK"}
 	if ev.Mes == nil {
 		ev.Mes = []vgME{}
 	}
@@ -393,6 +470,17 @@ func (h *vgHarness) exec(i int, st vgStep) vgEvent {
 			}
 			return "OK"
 		})
+	case "tick":
+		if h.gme == nil || h.closed {
+			ev.Res = "SKIPPED"
+			break
+		}
+		if h.clock != nil {
+			ev.Res, ev.Msg = vgGuard(func() string {
+				h.clock.advance(int64(st.N))
+				return "OK"
+			})
+		}
 	case "close":
 		if h.gme == nil || h.closed {
 			ev.Res = "SKIPPED"
@@ -426,9 +514,15 @@ func (h *vgHarness) exec(i int, st vgStep) vgEvent {
 
 func vgRunScript(sc vgScript, emit func(vgEvent)) {
 	h := newVGHarness()
+	h.r, h.d = sc.R, sc.D
+	if sc.R > 0 || sc.D > 0 {
+		h.clock = &vgClock{}
+		restore := multiendpoint.VerifSetClock(h.clock.Now, h.clock.After)
+		defer restore()
+	}
 	time.Sleep(2 * time.Millisecond)
 	h.baseline = runtime.NumGoroutine()
-	emit(vgEvent{Sid: sc.Id, Op: "reset", Res: "OK", Mes: []vgME{}, Dials: []vgDial{}, Conns: []vgConn{}, Pools: []string{}, Routes0: []vgRoute{}, Routes: []vgRoute{}, Settled: true})
+	emit(vgEvent{Sid: sc.Id, Op: "reset", R: sc.R, D: sc.D, Res: "OK", Mes: []vgME{}, Dials: []vgDial{}, Conns: []vgConn{}, Pools: []string{}, Routes0: []vgRoute{}, Routes: []vgRoute{}, Settled: true})
 	for i, st := range sc.Steps {
 		ev := h.exec(i+1, st)
 		ev.Sid = sc.Id
